@@ -177,13 +177,17 @@ def run(chk):
             its = iterator_adts(e.facts, K)
             nexts = [(b, sty) for b, sty, tr in e.facts.trait_impl_methods("std::iter::Iterator") if b["name"] == "next" and any(sty.get("path") == p for p, _, _ in its)]
             if not nexts:
-                chk.refuted("C08.I", "anchor-missing: Iterator for the iterator of %s" % K.adt, "no Iterator impl found")
+                # the iterator struct is internal: another shape than (table, flag) is not analysed, which decides nothing
+                chk.undecided("C08.I", "iterator of %s%s" % (K.adt, "" if cfg == "dbg" else " [rel]"), "no iterator struct of the shape (table, bool) with an Iterator impl: its typestate is not analysed")
                 continue
             nb, sty = nexts[0]
             ipath, ti, oi = [x for x in its if x[0] == sty["path"]][0]
             tag = "" if cfg == "dbg" else " [rel]"
             for n in nlist:
                 T = table_words(n)
+                # which value of the Boolean field means "live" is read off the start state (`ok: true` and
+                # `done: false` are the same iterator); the runs below then require that a live iterator yields
+                live = 1
                 # ---- all_functions start state
                 key = "%s::all_functions n=%d%s" % (K.adt, n, tag)
                 try:
@@ -197,8 +201,10 @@ def run(chk):
                         else:
                             fl = r.fields[oi]
                             v, d = check_table_value(e, kind, it, o.state, r.fields[ti], n, S.const(n, 0), o.pc)
-                            if v == PROVED and not (isinstance(fl, W) and fl.val == 1):
-                                v, d = REFUTED, "iterator does not start live"
+                            if v == PROVED and not (isinstance(fl, W) and fl.val is not None):
+                                v, d = UNDECIDED, "start flag %r" % (fl,)
+                            elif v == PROVED:
+                                live = fl.val
                 except Undecided as ex:
                     v, d = UNDECIDED, ex.cause
                 chk.add("C08.I", key, v, d, where=where_of(K.method("all_functions")))
@@ -212,10 +218,10 @@ def run(chk):
                         tab = K.mk(st, n, sym_words(n, "a"))
                         fs = [None, None]
                         fs[ti] = tab
-                        fs[oi] = wbool(ok)
+                        fs[oi] = wbool(live if ok else 1 - live)
                         ip = K.place(st, Agg("adt", ipath, 0, fs))
                         outs = it.call_body(nb, [ip], st, K.env(n))
-                        v, d = check_next(e, kind, it, outs, ip, ti, oi, n, ok)
+                        v, d = check_next(e, kind, it, outs, ip, ti, oi, n, ok, live)
                     except Undecided as ex:
                         v, d = UNDECIDED, ex.cause
                     finally:
@@ -249,7 +255,7 @@ def check_lexcmp(v, n):
     return REFUTED, "ordering does not compare the two tables word for word, most significant first"
 
 
-def check_next(e, kind, it, outs, ip, ti, oi, n, ok):
+def check_next(e, kind, it, outs, ip, ti, oi, n, ok, live=1):
     K = e.kinds[kind]
     T = table_words(n)
     rets = returns(outs)
@@ -267,12 +273,12 @@ def check_next(e, kind, it, outs, ip, ti, oi, n, ok):
         # an exhausted iterator returns None on every path and stays exhausted (a consumer such as `zip` polls again
         # after the end: a flag that comes back on would yield the functions a second time)
         verdict = (PROVED, "")
-        live = 0
+        nlive = 0
         for o in rets:
             s, w = pc_status(o.pc) if o.pc else ("sat", None)
             if s == "unsat":
                 continue
-            live += 1
+            nlive += 1
             r = o.value
             if not (isinstance(r, Agg) and r.key == OPTION):
                 return UNDECIDED, "result %r" % (r,)
@@ -281,19 +287,19 @@ def check_next(e, kind, it, outs, ip, ti, oi, n, ok):
             itv = it.read_ptr(o.state, ip)
             fl = itv.fields[oi]
             if isinstance(fl, W) and fl.val is not None:
-                if fl.val == 1 and s == "sat":
+                if fl.val == live and s == "sat":
                     return REFUTED, "an exhausted iterator is live again after returning None (its flag is set by that call%s): polling it once more yields functions a second time" % (", e.g. for %s" % w if w else "")
-                if fl.val == 1:
+                if fl.val == live:
                     verdict = (UNDECIDED, "flag set on a path of unknown feasibility")
             elif isinstance(fl, W):
-                s2, w2 = pc_status(tuple(o.pc) + (fl,))
+                s2, w2 = pc_status(tuple(o.pc) + ((fl if live else b_not(fl)),))
                 if s2 == "sat":
                     return REFUTED, "an exhausted iterator can be live again after returning None (flag %s, e.g. for %s)" % (B.describe(fl.bits[0]), w2)
                 if s2 != "unsat":
                     verdict = (UNDECIDED, "flag after the end not decided")
             else:
                 verdict = (UNDECIDED, "flag %r" % (fl,))
-        if not live:
+        if not nlive:
             return UNDECIDED, "no return path"
         return verdict
     # live iterator
@@ -325,7 +331,7 @@ def check_next(e, kind, it, outs, ip, ti, oi, n, ok):
             fl = itv.fields[oi]
             if not isinstance(fl, W):
                 return UNDECIDED, "flag %r" % (fl,)
-            v, d = compare_bits(fl.all_bits(), [exp_ok], o.pc)
+            v, d = compare_bits(fl.all_bits(), [exp_ok if live else B.bnot(exp_ok)], o.pc)
             if v != PROVED:
                 return v, "flag is not 'did not wrap around': " + d
         return PROVED, ""
@@ -350,7 +356,7 @@ def check_next(e, kind, it, outs, ip, ti, oi, n, ok):
             return UNDECIDED, "path condition without word-level term"
         # which path is this?  k = number of wrapped words
         k = sum(1 for c in conds if c[0] == "eq")
-        if fl.val == 1:
+        if fl.val == live:
             want_conds = [t_eq0(t_step(j, n)) for j in range(k)] + [("not", t_eq0(t_step(k, n)))]
             touched = k + 1
         else:
@@ -367,7 +373,7 @@ def check_next(e, kind, it, outs, ip, ti, oi, n, ok):
             if got != want and not (j < k and got == ("c", 0)):
                 # (a wrapped word is tested to be 0 on this path: storing the constant 0 is storing the step)
                 return REFUTED, "on the path where %d word(s) wrap, word %d becomes %s, expected %s" % (k, j, got, want)
-        seen.add((k, fl.val))
+        seen.add((k, 1 if fl.val == live else 0))
     want_paths = {(k, 1) for k in range(T)} | {(T, 0)}
     if seen != want_paths:
         return REFUTED, "successor step has paths %s, expected one per carry position and the wrap-around" % sorted(seen)
